@@ -1,8 +1,18 @@
 #!/usr/bin/env python3
 """C03: regenerates the constants the filter entry points use
-(`Collection::MAX_SEARCH_LIMIT`, the `search_ids` candidate breadth `limit * 10` capped at 4096)
-and the *shape* of the three arms of `filter_by_field_with` that decide paging:
-which arms pass the caller's `limit` down and which evaluate unbounded (`0`)."""
+(`Collection::MAX_SEARCH_LIMIT`, the `search_ids` candidate breadth `limit * A` capped at B, the
+filter complexity limits of query.rs) and two *shape facts* of the filter evaluator that decide
+paging:
+
+  compositeOperandsUnbounded  every evaluation of an operand of a composite filter - i.e. every call
+                              of `filter_by_field_with` made from inside its own call tree (itself and
+                              the private helpers it reaches) - is handed the literal limit `0`;
+  fieldArmStopsEarly          the callback handed to the B-tree scan (`try_range_query_ids`) contains
+                              an early `return false` (a stop in *key* order).
+
+Tolerant about layout: the arms may live in `filter_by_field_with` itself or in private helper
+functions it calls (at any depth); names of locals, comments, formatting do not matter.
+Strict about meaning: a missing anchor is an error, never a default."""
 import re, sys
 from common import *
 
@@ -10,39 +20,114 @@ repo, gen = sys.argv[1], sys.argv[2]
 src = strip_rust_comments(read_source(repo, "rs/anda_db/src/collection.rs"))
 max_limit = int_const(src, "MAX_SEARCH_LIMIT")
 
-body = fn_body(src, "search_ids")
-m = re.search(r"let\s+top_k\s*=\s*\(\s*limit\s*\*\s*(\d+)\s*\)\s*\.min\(\s*(\d+)\s*\)", body)
-if not m:
-    die("c03_consts: `let top_k = (limit * A).min(B)` not found in search_ids")
-factor, cap = int(m.group(1)), int(m.group(2))
-
 qsrc = strip_rust_comments(read_source(repo, "rs/anda_db/src/query.rs"))
 max_depth = int_const(qsrc, "MAX_FILTER_DEPTH")
 max_nodes = int_const(qsrc, "MAX_FILTER_NODES")
 max_branches = int_const(qsrc, "MAX_FILTER_BRANCHES")
 max_include = int_const(qsrc, "MAX_RANGE_INCLUDE_KEYS")
 
-# limits handed to recursive evaluations inside filter_by_field_with, per arm
-fb = fn_body(src, "filter_by_field_with")
-arms = {}
-for arm in ["Or", "And", "Not"]:
-    m = re.search(r"Filter::" + arm + r"\s*\(", fb)
-    if not m:
-        die(f"c03_consts: arm Filter::{arm} not found in filter_by_field_with")
-    nxt = min([x.start() for x in re.finditer(r"Filter::(Or|And|Not|Field)\s*\(", fb) if x.start() > m.start()] + [len(fb)])
-    seg = fb[m.start():nxt]
-    calls = re.findall(r"self\s*\.\s*filter_by_field_with\(\s*[^,]+,\s*[^,]+,\s*([^,]+),", seg)
-    if not calls:
-        die(f"c03_consts: no recursive filter_by_field_with call in arm {arm}")
-    arms[arm] = [c.strip() for c in calls]
-unbounded = all(c == "0" for a in arms.values() for c in a)
+# ---- all fn bodies of the file, by name (last definition wins for test modules: we cut at `mod tests`)
+cut = re.search(r"#\[cfg\(test\)\]\s*mod\s+tests", src)
+code = src[:cut.start()] if cut else src
+fn_names = sorted(set(re.findall(r"\bfn\s+([a-z_][a-z0-9_]*)\b", code)))
+bodies = {}
+for name in fn_names:
+    try:
+        bodies[name] = fn_body(code, name)
+    except SystemExit:
+        pass
 
-# the B-tree Field arm: does the scan callback stop at `limit`?
-fm = re.search(r"try_range_query_ids\(", fb)
-if not fm:
-    die("c03_consts: try_range_query_ids call not found in filter_by_field_with")
-seg = fb[fm.start():fb.index("})?;", fm.start())]
-field_stops_early = bool(re.search(r"return\s+false", seg))
+
+def callees(body):
+    out = set()
+    for m in re.finditer(r"(?:self\s*\.|Self::)\s*([a-z_][a-z0-9_]*)\s*(?:::<[^>]*>)?\(", body):
+        if m.group(1) in bodies:
+            out.add(m.group(1))
+    return out
+
+
+def reach(root):
+    seen, todo = set(), [root]
+    while todo:
+        f = todo.pop()
+        if f in seen:
+            continue
+        seen.add(f)
+        todo.extend(callees(bodies[f]))
+    return seen
+
+
+if "filter_by_field_with" not in bodies:
+    die("c03_consts: fn filter_by_field_with not found")
+tree = reach("filter_by_field_with")
+
+# ---- search_ids: top_k = (limit * A).min(B), possibly in a helper search_ids reaches
+sm = None
+for f in sorted(reach("search_ids") if "search_ids" in bodies else []):
+    sm = re.search(r"let\s+\w+\s*=\s*\(\s*\w+\s*\*\s*(\d+)\s*\)\s*\.min\(\s*(\d+)\s*\)", bodies[f])
+    if sm:
+        break
+if not sm:
+    die("c03_consts: `(limit * A).min(B)` (search candidate breadth) not found in search_ids or its helpers")
+factor, cap = int(sm.group(1)), int(sm.group(2))
+
+
+def call_args(body, callee):
+    """argument lists (split at top-level commas) of every call `self.callee(...)` in body"""
+    res = []
+    for m in re.finditer(r"(?:self\s*\.|Self::)\s*" + callee + r"\s*\(", body):
+        i, depth, cur, args = m.end(), 1, "", []
+        while i < len(body) and depth:
+            c = body[i]
+            if c in "([{":
+                depth += 1
+            elif c in ")]}":
+                depth -= 1
+                if depth == 0:
+                    break
+            if c == "," and depth == 1:
+                args.append(cur.strip()); cur = ""
+            else:
+                cur += c
+            i += 1
+        if cur.strip():
+            args.append(cur.strip())
+        res.append(args)
+    return res
+
+
+# ---- limits handed to operand evaluations: every call of filter_by_field_with from inside its own tree
+limits = []
+for f in sorted(tree):
+    for args in call_args(bodies[f], "filter_by_field_with"):
+        if len(args) < 4:
+            die(f"c03_consts: call of filter_by_field_with in {f} has {len(args)} arguments, expected 4")
+        limits.append((f, args[2]))
+if not limits:
+    die("c03_consts: no operand evaluation (recursive call of filter_by_field_with) found in its call tree")
+unbounded = all(l == "0" for _, l in limits)
+
+# ---- the B-tree scan callback
+scan_fns = [f for f in sorted(tree) if re.search(r"\btry_range_query_ids\s*\(", bodies[f])]
+if len(scan_fns) != 1:
+    die(f"c03_consts: expected exactly one function in filter_by_field_with's call tree calling try_range_query_ids, found {scan_fns}")
+b = bodies[scan_fns[0]]
+m = re.search(r"\btry_range_query_ids\s*\(", b)
+i, depth = m.end(), 1
+while i < len(b) and depth:
+    if b[i] in "([{":
+        depth += 1
+    elif b[i] in ")]}":
+        depth -= 1
+    i += 1
+call_text = b[m.end():i]
+# the callback may be a closure literal in the call, or a named closure/fn defined in the same function
+cb_text = call_text
+for name in re.findall(r"\b([a-z_][a-z0-9_]*)\b", call_text.split("|")[0] if "|" not in call_text else ""):
+    dm = re.search(r"let\s+(?:mut\s+)?" + name + r"\s*=\s*(?:move\s*)?\|", b)
+    if dm:
+        cb_text += b[dm.start():]
+field_stops_early = bool(re.search(r"\breturn\s+false\b", cb_text)) or bool(re.search(r"\|\s*\w+\s*\|[^;{]*\bfalse\b\s*\)", call_text))
 
 text = f"""/- GENERATED by bin/translate/c03_consts.py from rs/anda_db/src/collection.rs and query.rs — do not edit. -/
 namespace AndaVerif.Gen.FilterConsts
@@ -57,10 +142,11 @@ def maxFilterDepth : Nat := {max_depth}
 def maxFilterNodes : Nat := {max_nodes}
 def maxFilterBranches : Nat := {max_branches}
 def maxRangeIncludeKeys : Nat := {max_include}
-/-- every recursive evaluation inside the `Or` / `And` / `Not` arms of `filter_by_field_with`
+/-- every evaluation of a composite filter's operand (each call of `filter_by_field_with` made from
+inside its own call tree: {len(limits)} call site(s) in {len(set(f for f, _ in limits))} function(s))
 is handed the literal limit `0` (unbounded) -/
 def compositeOperandsUnbounded : Bool := {"true" if unbounded else "false"}
-/-- the B-tree `Field` arm's scan callback contains an early `return false` (a stop in key order) -/
+/-- the callback of the B-tree `Field` scan contains an early `return false` (a stop in key order) -/
 def fieldArmStopsEarly : Bool := {"true" if field_stops_early else "false"}
 
 theorem gen_maxSearchLimit_pos : 0 < maxSearchLimit := by decide
